@@ -342,11 +342,32 @@ func (fr *Frame) doAppend(cc *ssa.CallCommon, args []Val, st *State, instr ssa.I
 		fam = "E"
 	}
 	k := Term{"ai", SInt}
+	constN, isConst := int64(-1), false
+	if !fromString {
+		if v, ok := smtIntValue(sln.S); ok && v >= 0 && v <= 8 {
+			constN, isConst = v, true
+		}
+	}
 	for _, hh := range ex.leafHeaps(fam, typeName(et), "", et, "") {
 		old := st.get(hh)
-		na := ex.vc.fresh("approw", arrOf(hh.Leaf.Sort))
-		// content of the result row
 		oldRow := Select(old, arr)
+		if isConst {
+			// appending a fixed number of elements: the in-place row is the old row with
+			// the new elements stored; the reallocated row copies the prefix.
+			srcRow := Select(old, sarr)
+			rowIn := oldRow
+			for e := int64(0); e < constN; e++ {
+				rowIn = Store(rowIn, Add(off, Add(ln, Int(e))), Select(srcRow, Add(soff, Int(e))))
+			}
+			nr := ex.vc.fresh("approw", arrOf(hh.Leaf.Sort))
+			ex.vc.assert(Forall([]string{"ai"}, Implies(And(Le(Int(0), k), Lt(k, ln)), Eq(Select(nr, k), Select(oldRow, Add(off, k)))), Select(nr, k)))
+			for e := int64(0); e < constN; e++ {
+				ex.vc.assert(Eq(Select(nr, Add(ln, Int(e))), Select(srcRow, Add(soff, Int(e)))))
+			}
+			st.set(hh, ex.vc.define(hh.Name, Ite(inPlace, Store(old, arr, rowIn), Store(old, fresh, nr))))
+			continue
+		}
+		na := ex.vc.fresh("approw", arrOf(hh.Leaf.Sort))
 		// existing elements
 		ex.vc.assert(Forall([]string{"ai"}, Implies(And(Le(Int(0), k), Lt(k, ln)), Eq(Select(na, Add(roff, k)), Select(oldRow, Add(off, k)))), Select(na, Add(roff, k))))
 		// in place: everything outside the appended window is unchanged
@@ -736,6 +757,21 @@ func (fr *Frame) checkParamInv(callee *ssa.Function, args []Val, st *State) {
 	for i, p := range callee.Params {
 		if i >= len(args) {
 			break
+		}
+		// object invariants of pointer arguments must hold when the callee is entered
+		if isPointer(p.Type()) && len(args[i].L) > 0 && callee.Synthetic == "" {
+			for _, it := range ex.P.invTargets(ex, args[i], p.Type()) {
+				env := ex.newEnv(st, st, fr)
+				env.pkg = it.tn[:strings.Index(it.tn, ".")]
+				env.vars["this"] = it.v
+				for ci, c := range it.cs {
+					lbl := c.Label
+					if lbl == "" {
+						lbl = fmt.Sprintf("%d", ci)
+					}
+					fr.oblige(st, "pre", fmt.Sprintf("%s/typeinv %s %s/%s", funcKey(callee), p.Name(), it.tn, lbl), Implies(Ne(args[i].L[0], Int(0)), safeEval(env, c)), 0)
+				}
+			}
 		}
 		cls := ex.P.db.ParamInv[typeName(p.Type())]
 		for _, cl := range cls {
